@@ -218,7 +218,7 @@ func flattenCorpus() []any {
 var flattenPlusStream = (&StreamSpec{
 	Name:   "flattenPlus",
 	Op:     "ping",
-	N:      240,
+	N:      360,
 	Stream: 9,
 	Rule:   "bundles of W+ (a W bundle plus 1..2 of: anonymous pointer to a boolean additionalProperties / a tuple / an operation / a non-schema object, pointers nested in pointer targets and pointer cycles, references from auxiliary documents back to the root, collisions of imported definitions that contain $refs, dangling local / cross-file $refs, missing files) x the 6 option sets, each Flatten in a child process (25 s), every k-th load failing; checked: no panic, no crash, no hang, error when a planted $ref cannot be resolved; non-trivial = all; distinct by canonical JSON",
 	ImplBatch: func(ins []any) []any {
